@@ -89,20 +89,9 @@ Definition eff (i : instr) (t : list Z) : option (list Z) :=
 Definition ok_trap (c : Z) : bool :=
   (c =? T_INVALID_CELL_VALUE) || (c =? T_INVALID_OPERAND_VALUE).
 
-Definition nonfinite_top (stk : list cell) : bool :=
-  match stk with
-  | CS f :: _ | CD f :: _ => negb (is_finite f)
-  | _ => false
-  end.
-
-(* the stack-instruction crashes of the unchanged tree (known findings of C07) *)
-Definition crash_guard (i : instr) (stk : list cell) : bool :=
-  match i with
-  | IConv _ d => ((d =? 1) || (d =? 2)) && nonfinite_top stk
-  | ICint | IClng | IInt => nonfinite_top stk
-  | IStrrep => match stk with CI z :: _ => (z <? 0) || (z >? 255) | _ => false end
-  | _ => false
-  end.
+(* after the fixes of D17/D18/D37 no stack instruction can raise a host
+   exception from a well-typed stack: the guard is empty *)
+Definition crash_guard (i : instr) (stk : list cell) : bool := false.
 
 (* abstract execution of a straight-line block *)
 Fixpoint eff_list (l : list instr) (t : list Z) : option (list Z) :=
